@@ -58,7 +58,18 @@ def build_mod():
 
 
 def version_file_text(fields):
-    return "".join(f"{k} = {v}\n" for k, v in fields.items())
+    """the lines of a VERSION file in an order that depends on the content (given, reversed, alphabetical, rotated): the meaning of
+    a VERSION file does not depend on the order of its lines"""
+    import zlib
+    items = list(fields.items())
+    k = zlib.crc32(repr(sorted(items)).encode()) % 4
+    if k == 1:
+        items = items[::-1]
+    elif k == 2:
+        items = sorted(items)
+    elif k == 3 and len(items) > 1:
+        items = items[2:] + items[:2]
+    return "".join(f"{k_} = {v}\n" for k_, v in items)
 
 
 def impl_defaults(tmp, fields, via="file"):
